@@ -5,3 +5,4 @@ import GoJson.Props.C16
 import GoJson.Props.C17
 import GoJson.Props.C05
 import GoJson.Props.C18
+import GoJson.Props.C14
